@@ -1,0 +1,46 @@
+//go:build verif
+
+package fasthttp
+
+import (
+	"bufio"
+	"errors"
+	"io"
+)
+
+// Pass-through wrappers for the C34 (body stream) verification harness. No behaviour of their own.
+
+// VerifWriteBodyChunked exposes writeBodyChunked.
+func VerifWriteBodyChunked(w *bufio.Writer, r io.Reader) error { return writeBodyChunked(w, r) }
+
+// VerifWriteBodyFixedSize exposes writeBodyFixedSize.
+func VerifWriteBodyFixedSize(w *bufio.Writer, r io.Reader, size int64) error {
+	return writeBodyFixedSize(w, r, size)
+}
+
+// VerifReadBodyChunked exposes readBodyChunked (dst = nil).
+func VerifReadBodyChunked(r *bufio.Reader, maxBodySize int) ([]byte, error) {
+	return readBodyChunked(r, maxBodySize, nil)
+}
+
+// VerifChunkErrClass maps the errors of the chunked reader to class names (never by message text).
+func VerifChunkErrClass(err error) string {
+	var bc ErrBrokenChunk
+	switch {
+	case err == nil:
+		return "nil"
+	case errors.As(err, &bc):
+		return "broken"
+	case err == errEmptyHexNum:
+		return "hex-empty"
+	case err == errTooLargeHexNum:
+		return "hex-toolarge"
+	case err == ErrBodyTooLarge:
+		return "toolarge"
+	case err == io.ErrUnexpectedEOF:
+		return "eof"
+	case err == io.EOF:
+		return "hex-eof"
+	}
+	return "other:" + err.Error()
+}
